@@ -90,6 +90,8 @@ func (w *WorkerPool) Submit(workerFunc func(), optStackTrace ...string) {
 		return
 	}
 
+	verifYield("submit-after-running-check")
+
 	w.increasePendingTasks()
 
 	w.Queue.Push(newTask(workerFunc, w.decreasePendingTasks, lo.First(optStackTrace)))
